@@ -21,11 +21,12 @@ open FFS.Model.FsWalletConc FFS.Gen.FsWalletFacts
 
 /-- **Lock discipline**, over the regenerated table: every access to listeners / addressList / addressToFileMap is
     under `w.mux` and not inside a `go` statement; all three fields are covered; the dispatch goroutine ranges over
-    the snapshot; `getKeyAndPasswordFiles` does not write the shared configuration. -/
+    the snapshot; `getKeyAndPasswordFiles` does not write the shared configuration; a discovery pass, a listener
+    registration and an account listing are each one critical section (so each is one atomic step of the model). -/
 theorem lock_discipline :
     lockTable.all (fun r => r.2.2.1 && !r.2.2.2) = true ∧
     (["listeners", "addressList", "addressToFileMap"].all fun f => lockTable.any fun r => r.2.1 == f) = true ∧
-    listenersSnapshotUsed = true ∧ formatNotWritten = true := by decide
+    listenersSnapshotUsed = true ∧ formatNotWritten = true ∧ singleCriticalSection = true := by decide
 
 /-! ### helper lemmas -/
 
